@@ -59,6 +59,10 @@ type BuildOpts struct {
 	SubCompileOpts func(idx int, p []uint64) []compose.GraphCompileOption
 	// NodeOpts, if set, returns extra add-node options for the node at path p.
 	NodeOpts func(p []uint64, n *Node) []compose.GraphAddNodeOpt
+	// AutoChainKeys: chain nodes are appended WITHOUT WithNodeKey, so that Chain generates their graph keys
+	// (node_0, node_1_parallel_0, node_2_branch_<key> ...). Observations do not mention eino's node keys
+	// (lambdas are identified by their harness path), so nothing else changes. Default: explicit keys.
+	AutoChainKeys bool
 }
 
 type Built struct {
@@ -175,6 +179,13 @@ func (b *builder) subCompileOpts(idx int, p []uint64) []compose.GraphCompileOpti
 		opts = append(opts, b.o.SubCompileOpts(idx, p)...)
 	}
 	return opts
+}
+
+func (b *builder) chainKeyOpt(k uint64) []compose.GraphAddNodeOpt {
+	if b.o.AutoChainKeys {
+		return nil
+	}
+	return []compose.GraphAddNodeOpt{compose.WithNodeKey(KeyStr(k))}
 }
 
 func (b *builder) nodeOpts(p []uint64, n *Node, extra ...compose.GraphAddNodeOpt) []compose.GraphAddNodeOpt {
@@ -339,7 +350,7 @@ func (b *builder) chain(g *Graph, p []uint64) (*compose.Chain[M, M], error) {
 			sn := &st.Nodes[0]
 			np := pathOf(p, sn.Key)
 			n := &Node{Key: sn.Key, Kind: sn.Kind, Sub: sn.Sub, OutKey: sn.OutKey}
-			opts := b.nodeOpts(np, n, compose.WithNodeKey(KeyStr(sn.Key)))
+			opts := b.nodeOpts(np, n, b.chainKeyOpt(sn.Key)...)
 			switch sn.Kind {
 			case "lambda":
 				ch.AppendLambda(b.lambda(np), opts...)
@@ -359,7 +370,7 @@ func (b *builder) chain(g *Graph, p []uint64) (*compose.Chain[M, M], error) {
 				np := pathOf(p, sn.Key)
 				// the output key is given to Parallel.Add*, not as an option
 				n := &Node{Key: sn.Key, Kind: sn.Kind, Sub: sn.Sub}
-				opts := b.nodeOpts(np, n, compose.WithNodeKey(KeyStr(sn.Key)))
+				opts := b.nodeOpts(np, n, b.chainKeyOpt(sn.Key)...)
 				ok := KeyStr(sn.OutKey)
 				switch sn.Kind {
 				case "lambda":
@@ -397,7 +408,7 @@ func (b *builder) chain(g *Graph, p []uint64) (*compose.Chain[M, M], error) {
 				sn := &st.Nodes[ni]
 				np := pathOf(p, sn.Key)
 				n := &Node{Key: sn.Key, Kind: sn.Kind, Sub: sn.Sub, OutKey: sn.OutKey}
-				opts := b.nodeOpts(np, n, compose.WithNodeKey(KeyStr(sn.Key)))
+				opts := b.nodeOpts(np, n, b.chainKeyOpt(sn.Key)...)
 				bk := KeyStr(sn.Key)
 				switch sn.Kind {
 				case "lambda":
